@@ -125,6 +125,7 @@ type scenarioT struct {
 // broker closing that connection can release the blocked write:
 //
 //	disconnect   the stalled client writes DISCONNECT (its read direction still works)
+//	disconnect-expiry  the same with a session-expiry update in the DISCONNECT (v5; the client connected with an interval)
 //	half-close   the harness half-closes its side (the broker reads EOF; the blocked write stays blocked)
 //	reset        the harness resets the connection (the blocked write fails: the easy case)
 //	takeover     another connection connects with the same client id
@@ -140,7 +141,7 @@ type stalledT struct {
 	Clean   bool   `json:"clean"` // clean start of the stalled client and of the connection that takes it over
 }
 
-var stalledVariants = []string{"disconnect", "half-close", "reset", "takeover", "server-close"}
+var stalledVariants = []string{"disconnect", "disconnect-expiry", "half-close", "reset", "takeover", "server-close"}
 
 func genStalled(t *rapid.T) *stalledT {
 	return &stalledT{
@@ -988,7 +989,11 @@ func (r *runner) stalledMain(p stalledT, st map[string]int64) {
 	}
 	s := r.openLimited(p.Limit)
 	s.ver, s.ack = p.Ver, "none"
-	s.sendPk(&refmqtt.Packet{Type: refmqtt.CONNECT, ProtocolName: "MQTT", Level: p.Ver, CleanStart: p.Clean, ClientID: id, KeepAlive: 0})
+	con := &refmqtt.Packet{Type: refmqtt.CONNECT, ProtocolName: "MQTT", Level: p.Ver, CleanStart: p.Clean, ClientID: id, KeepAlive: 0}
+	if p.Ver == 5 && p.Variant == "disconnect-expiry" {
+		con.Props.SessionExpiry = u32p(30)
+	}
+	s.sendPk(con)
 	if !waitFor(s, "connack", 1, 3*time.Second) {
 		st["stalled:not-connected"]++
 		s.c.closePeer(true)
@@ -1026,6 +1031,12 @@ func (r *runner) stalledMain(p stalledT, st map[string]int64) {
 	switch p.Variant {
 	case "disconnect":
 		s.sendPk(&refmqtt.Packet{Type: refmqtt.DISCONNECT})
+	case "disconnect-expiry":
+		d := &refmqtt.Packet{Type: refmqtt.DISCONNECT}
+		if p.Ver == 5 {
+			d.Props.SessionExpiry = u32p(50)
+		}
+		s.sendPk(d)
 	case "half-close":
 		s.c.closePeer(false)
 	case "reset":
